@@ -18,7 +18,7 @@ MCH := $(patsubst /verif/harness/%.cpp,%,$(wildcard /verif/harness/mc_*.cpp)) li
 
 .PHONY: setup rt mc-objs all-mc
 ALLMC := $(patsubst /verif/harness/%.cpp,$(B)/%,$(wildcard /verif/harness/mc_*.cpp))
-ALLSQ := $(patsubst /verif/harness/%.cpp,$(B)/%,$(wildcard /verif/harness/sq_*.cpp))
+ALLSQ := $(patsubst /verif/harness/%.cpp,$(B)/%,$(wildcard /verif/harness/sq_*.cpp)) $(B)/sq_ser_dbg
 setup: rt $(B)/litmus $(ALLMC) $(ALLSQ)
 	python3 /verif/check selftest
 
@@ -43,7 +43,7 @@ $(B)/mc_%: $(B)/h/mc_%.o $(B)/bbmc_rt.o $(B)/mc/libbabylon_mc.a
 	$(CXX) -o $@ $(B)/h/mc_$*.o $(B)/bbmc_rt.o $(B)/mc/libbabylon_mc.a $(LIBS)
 
 # ---- seqx flavour: ASan + UBSan, no model runtime ----------------------------------------------------------
-SQFLAGS := -std=gnu++20 -O1 -g -fsanitize=address,undefined -fno-sanitize=null -fno-sanitize-recover=all -fno-omit-frame-pointer -Wno-deprecated-declarations $(INC)
+SQFLAGS := -std=gnu++20 -O1 -g -fsanitize=address,undefined -fno-sanitize=null,nonnull-attribute -fno-sanitize-recover=all -fno-omit-frame-pointer -Wno-deprecated-declarations $(INC)
 AOBJ := $(patsubst $(REPO)/src/%.cpp,$(B)/asan/%.o,$(BSRC))
 $(B)/asan/%.o: $(REPO)/src/%.cpp
 	@mkdir -p $(dir $@)
@@ -53,6 +53,22 @@ $(B)/asan/libbabylon_asan.a: $(AOBJ)
 $(B)/hs/%.o: /verif/harness/%.cpp /verif/harness/seqx.h
 	@mkdir -p $(dir $@)
 	$(CXX) $(SQFLAGS) -DNDEBUG -fno-access-control -MMD -MP -c $< -o $@
+# serialization harness: needs the generated code of the repository's test proto
+$(B)/gen/arena_example.pb.cc: $(REPO)/test/proto/arena_example.proto
+	@mkdir -p $(B)/gen
+	protoc --cpp_out=$(B)/gen -I $(REPO)/test/proto $<
+$(B)/gen/arena_example.pb.o: $(B)/gen/arena_example.pb.cc
+	$(CXX) $(SQFLAGS) -DNDEBUG -I$(B)/gen -c $< -o $@
+$(B)/hs/sq_ser.o: /verif/harness/sq_ser.cpp $(B)/gen/arena_example.pb.cc
+	@mkdir -p $(dir $@)
+	$(CXX) $(SQFLAGS) -DNDEBUG -I$(B)/gen -fno-access-control -MMD -MP -c $< -o $@
+$(B)/hs/sq_ser_dbg.o: /verif/harness/sq_ser.cpp $(B)/gen/arena_example.pb.cc
+	@mkdir -p $(dir $@)
+	$(CXX) $(SQFLAGS) -UNDEBUG -I$(B)/gen -fno-access-control -MMD -MP -c $< -o $@
+$(B)/sq_ser: $(B)/hs/sq_ser.o $(B)/gen/arena_example.pb.o $(B)/asan/libbabylon_asan.a
+	$(CXX) -fsanitize=address,undefined -o $@ $(B)/hs/sq_ser.o $(B)/gen/arena_example.pb.o $(B)/asan/libbabylon_asan.a $(LIBS)
+$(B)/sq_ser_dbg: $(B)/hs/sq_ser_dbg.o $(B)/gen/arena_example.pb.o $(B)/asan/libbabylon_asan.a
+	$(CXX) -fsanitize=address,undefined -o $@ $(B)/hs/sq_ser_dbg.o $(B)/gen/arena_example.pb.o $(B)/asan/libbabylon_asan.a $(LIBS)
 $(B)/sq_%: $(B)/hs/sq_%.o $(B)/asan/libbabylon_asan.a
 	$(CXX) -fsanitize=address,undefined -o $@ $(B)/hs/sq_$*.o $(B)/asan/libbabylon_asan.a $(LIBS)
 
